@@ -5,7 +5,7 @@
 (*   emitc : EmitC state machine over the statements of the text (C11/C12) *)
 (* One TLC state per (case, artefact); the work is done in Next.           *)
 (***************************************************************************)
-EXTENDS CSem, Sorts, EmitC, Json, IOUtils, TLCExt
+EXTENDS CSem, Sorts, EmitC, Attrs, Json, IOUtils, TLCExt
 
 Data == JsonDeserialize(IOEnv.TV_FILE)
 Cases == Data.cases
@@ -44,14 +44,18 @@ EmitVerdict(cs, o) ==
         st == RunEvents(Init0(amb), o.events, 1, Known, Allowed)
     IN  st.bad
 
+\* attributes reported with this artefact (C13); artefacts without a meta list are not judged
+MetaVerdict(cs, o) ==
+    IF "meta" \in DOMAIN o THEN AttrVerdict(cs.attr_body, cs.noped, o.meta) ELSE ""
+
 Check(ci, ai) ==
     LET cs == Cases[ci] o == cs.obs[ai]
-    IN  [sort |-> SortVerdict(cs, o), emitc |-> EmitVerdict(cs, o)]
+    IN  [sort |-> SortVerdict(cs, o), emitc |-> EmitVerdict(cs, o), meta |-> MetaVerdict(cs, o)]
 
 Report(ci, ai, v) ==
-    IF v.sort.err = "" /\ v.emitc = "" THEN TRUE
+    IF v.sort.err = "" /\ v.emitc = "" /\ v.meta = "" THEN TRUE
     ELSE PrintT("STREPORT " \o ToJson([id |-> Cases[ci].id, fmt |-> Cases[ci].obs[ai].fmt,
-                                        sort |-> v.sort.err, emitc |-> v.emitc]))
+                                        sort |-> v.sort.err, emitc |-> v.emitc, meta |-> v.meta]))
 
 Init == c \in 1..Len(Cases) /\ a \in 1..Len(Cases[c].obs) /\ verdict = <<>>
 Next == /\ verdict = <<>>
@@ -61,4 +65,5 @@ Spec == Init /\ [][Next]_vars
 
 WellSorted == \A i \in 1..Len(verdict) : verdict[i].sort.err = ""
 WellFormed == \A i \in 1..Len(verdict) : verdict[i].emitc = ""
+AttrsExact == \A i \in 1..Len(verdict) : verdict[i].meta = ""
 =============================================================================
